@@ -7,7 +7,8 @@
    calls in call order.  Allocator creation is [vam_new].  One definition per Go function or loop. *)
 From Coq Require Import ZArith NArith List Bool Lia.
 From Arsenal Require Util Gran Tlsf Linear SyncMem Budget Select.
-From Arsenal Require Import VamDev VamBlockList.
+From Arsenal Require Pass Defrag.
+From Arsenal Require Import VamDev VamBlockList VamDefrag.
 Import ListNotations.
 Open Scope Z_scope.
 
@@ -40,7 +41,7 @@ Fixpoint init_lists (global : N) (n : nat) (i : Z) : list (option blist) :=
   | O => []
   | S k =>
     (if N.testbit global (Z.to_N i) then
-       Some (mkBlist i (preferred_block_size i) 0 MAXINT eff_granularity false 0 (type_min_alignment i) [] 0)
+       Some (mkBlist i (preferred_block_size i) 0 MAXINT eff_granularity false 0 (type_min_alignment i) [] 0 true)
      else None) :: init_lists global k (i + 1)
   end.
 
@@ -49,7 +50,7 @@ Definition vam_new (nslots : nat) : out vam :=
   if negb (is_pow2_or_zero (c_gran c)) then ER 0
   else if negb (is_pow2_or_zero (c_atom c)) then ER 0
   else
-    let m0 := mkMach [] 0 no_fault 0 Budget.bzero [] in
+    let m0 := mkMach [] 0 no_fault 0 Budget.bzero [] [] 0 in
     let m := set_bud m0 (Budget.binit (bcfg_of c) (dev_report c m0)) in
     let global := Select.global_bits false types_n in
     let nt := length (c_types c) in
@@ -114,7 +115,7 @@ Definition allocate_dedicated_page (v : vam) (lr : lref) (ty size sub : Z) (doMa
       let persist := SyncMem.mapped s in
       if persist && negb allowed then (set_m v m2, PANIC)
       else
-        let a := mkAlloc true 2 size 0 ty sub persist allowed lr (-1) 0 mem s in
+        let a := mkAlloc true 2 size 0 ty sub persist allowed lr (-1) 0 mem s false in
         let v1 := set_alloc (set_m v m2) slot a in
         (set_m v1 (add_allocation c (v_m v1) (type_heap c ty) size), OK tt)
     end
@@ -453,6 +454,105 @@ Definition harness_rw (v : vam) (slot : Z) : vam * out unit :=
   | other => (v1, other)
   end.
 
+(* ---------------------------------------------------------------- resources *)
+
+(* getBufferMemoryRequirements / getImageMemoryRequirements: the dedicated-allocation answers exist from
+   Vulkan 1.1 on (GetBufferMemoryRequirements2) *)
+Definition get_requirements (m : mach) (image : bool) (res : Z) : mach * resreq * bool * bool :=
+  let '(m1, rq) := dev_requirements m image res in
+  if 11 <=? c_api c then (m1, rq, rq_reqded rq, rq_prefded rq) else (m1, rq, false, false).
+
+(* the resource named in MemoryDedicatedAllocateInfo: extension present and not AllocationCreateCanAlias *)
+Definition dedicated_info (flags res : Z) : Z :=
+  if (11 <=? c_api c) && negb (fl flags F_CANALIAS) then res else 0.
+
+(* bindBufferMemory / bindImageMemory (next = nil) *)
+Definition bind_memory (v : vam) (slot : Z) (image : bool) (res off : Z) : vam * out unit :=
+  let a := get_alloc v slot in
+  if res =? 0 then (v, ER VK_UNKNOWN)
+  else if negb (a_allocated a) then (v, ER VK_UNKNOWN)
+  else
+    let target :=
+      if a_kind a =? 2 then OK off
+      else if a_kind a =? 1 then match find_offset v a with Some o => OK (off + o) | None => PANIC end
+      else ER VK_UNKNOWN in
+    match target with
+    | OK o =>
+      let '(m1, code) := dev_bind (v_m v) image res (a_mem a) o in
+      (set_m v m1, if code =? 0 then OK tt else ER code)
+    | ER code => (v, ER code)
+    | PANIC => (v, PANIC)
+    | STUCK => (v, STUCK)
+    end.
+
+(* createBuffer / CreateImage after the argument checks: create, query, allocate, bind, undo on failure.
+   kind/sub: resource kind on the device and suballocation type; resusage = BufferCreateInfo.Usage / ImageCreateInfo.Usage *)
+Definition create_resource (v : vam) (slot : Z) (image : bool) (kind sub : Z) (devreq : resreq) (resusage minAlign : Z)
+           (usage flags req pref ctb : Z) (pool : option Z) : vam * out unit :=
+  let '(m1, code, id) := dev_create_res (v_m v) image kind devreq in
+  if negb (code =? 0) then (set_m v m1, ER code)
+  else
+    let '(m2, rq, rd, pd) := get_requirements m1 image id in
+    let align := if rq_align rq <? minAlign then minAlign else rq_align rq in
+    let '(v3, r) := multi_allocate (set_m v m2) (rq_size rq) align (rq_tb rq) rd pd (dedicated_info flags id)
+                                   (Some (Z.to_N resusage)) usage flags req pref ctb pool sub [slot] in
+    match r with
+    | OK _ =>
+      if fl flags F_DONTBIND then (v3, OK tt)
+      else
+        let '(v4, br) := bind_memory v3 slot image id 0 in
+        match br with
+        | ER bcode =>
+          (* deferred: outAlloc.free() (its error is only logged), then Destroy *)
+          let '(v5, fr) := if a_allocated (get_alloc v4 slot) then multi_free v4 [slot] else (v4, OK tt) in
+          let v6 := set_m v5 (dev_destroy_res (v_m v5) image id) in
+          (v6, match fr with PANIC => PANIC | STUCK => STUCK | _ => ER bcode end)
+        | other => (v4, other)
+        end
+    | ER acode => (set_m v3 (dev_destroy_res (v_m v3) image id), ER acode)
+    | other => (v3, other)
+    end.
+
+(* CreateBuffer / CreateBufferWithAlignment (minAlign > 0) *)
+Definition create_buffer (v : vam) (slot size : Z) (devreq : resreq) (bufUsage minAlign : Z)
+           (usage flags req pref ctb : Z) (pool : option Z) : vam * out unit :=
+  if a_allocated (get_alloc v slot) then (v, ER VK_UNKNOWN)
+  else if (0 <? minAlign) && negb (is_pow2_or_zero minAlign) then (v, ER VK_UNKNOWN)
+  else if size =? 0 then (v, ER VK_UNKNOWN)
+  else if Z.testbit bufUsage 17 && (c_api c <? 12) then (v, ER (-7))
+  else create_resource v slot false 1 2 devreq bufUsage minAlign usage flags req pref ctb pool.
+
+(* CreateImage: extent (width, 1, 1), one mip level, one layer; tiling 0 = optimal *)
+Definition create_image (v : vam) (slot tiling width : Z) (devreq : resreq) (imgUsage : Z)
+           (usage flags req pref ctb : Z) (pool : option Z) : vam * out unit :=
+  if a_allocated (get_alloc v slot) then (v, ER VK_UNKNOWN)
+  else if width =? 0 then (v, ER VK_UNKNOWN)
+  else create_resource v slot true (if tiling =? 0 then 3 else 2) (if tiling =? 0 then 5 else 4) devreq imgUsage 0
+                       usage flags req pref ctb pool.
+
+(* Allocation.DestroyBuffer / DestroyImage *)
+Definition destroy_with_resource (v : vam) (slot : Z) (image : bool) (res : Z) : vam * out unit :=
+  let v1 := if res =? 0 then v else set_m v (dev_destroy_res (v_m v) image res) in
+  allocation_free v1 slot.
+
+(* AllocateMemoryForBuffer / AllocateMemoryForImage *)
+Definition allocate_for_resource (v : vam) (slot : Z) (image : bool) (res : Z) (usage flags req pref ctb : Z)
+           (pool : option Z) : vam * out unit :=
+  if res =? 0 then (v, ER VK_UNKNOWN)
+  else if a_allocated (get_alloc v slot) then (v, ER VK_UNKNOWN)
+  else
+    let '(m1, rq, rd, pd) := get_requirements (v_m v) image res in
+    multi_allocate (set_m v m1) (rq_size rq) (rq_align rq) (rq_tb rq) rd pd (dedicated_info flags res) None
+                   usage flags req pref ctb pool (if image then 3 else 2) [slot].
+
+(* the harness creating / destroying a resource directly on the driver (rbuf, rimg, rdres) *)
+Definition raw_create (v : vam) (image : bool) (kind : Z) (devreq : resreq) : vam * out unit :=
+  let '(m1, code, _) := dev_create_res (v_m v) image kind devreq in
+  (set_m v m1, if code =? 0 then OK tt else ER code).
+
+Definition raw_destroy (v : vam) (image : bool) (res : Z) : vam * out unit :=
+  (set_m v (dev_destroy_res (v_m v) image res), OK tt).
+
 (* ---------------------------------------------------------------- pools *)
 
 (* Pool.Destroy / destroyAfterLock *)
@@ -483,7 +583,7 @@ Definition create_pool (v : vam) (ty flags blockSize minB maxB0 minAlign : Z) : 
     let gr := if Z.testbit flags 0 then 1 else eff_granularity in
     let al := if type_min_alignment ty <? minAlign then minAlign else type_min_alignment ty in
     let uid := v_next_uid v in
-    let l := mkBlist ty bs minB maxB gr (negb (blockSize =? 0)) (Z.land flags 2) al [] 0 in
+    let l := mkBlist ty bs minB maxB gr (negb (blockSize =? 0)) (Z.land flags 2) al [] 0 true in
     (* the pool object exists but is not linked into a.pools yet; the model links it at once and
        unlinks it again if creation fails (nothing observes the list in between) *)
     let v0 := mkVam (v_m v) (v_global v) (v_lists v) (v_ded v) (mkPool uid 0 l [] :: v_pools v)
@@ -625,7 +725,14 @@ Inductive op :=
 | OMkPool (ty flags blockSize minB maxB minAlign : Z)
 | ORmPool (uid : Z)
 | OStats (detailed : bool)
-| ODestroy.
+| ODestroy
+| OCreateBuf (slot size : Z) (devreq : resreq) (bufUsage minAlign usage flags req pref ctb : Z) (pool : option Z)
+| OCreateImg (slot tiling width : Z) (devreq : resreq) (imgUsage usage flags req pref ctb : Z) (pool : option Z)
+| ODestroyRes (slot : Z) (image : bool) (res : Z)
+| OAllocFor (slot : Z) (image : bool) (res usage flags req pref ctb : Z) (pool : option Z)
+| OBind (slot : Z) (image : bool) (res off : Z)
+| ORawCreate (image : bool) (kind : Z) (devreq : resreq)
+| ORawDestroy (image : bool) (res : Z).
 
 (* RErr 0: the API returned only an error *)
 Inductive result := ROk | RErr (code : Z) | RPanic | RStuck.
@@ -649,6 +756,16 @@ Definition exec (v : vam) (o : op) : vam * out unit :=
   | ORmPool uid => pool_destroy v uid
   | OStats _ => build_stats_string v
   | ODestroy => allocator_destroy v
+  | OCreateBuf slot size dr bu ma usage flags req pref ctb pool =>
+    create_buffer v slot size dr bu ma usage flags req pref ctb pool
+  | OCreateImg slot tiling width dr iu usage flags req pref ctb pool =>
+    create_image v slot tiling width dr iu usage flags req pref ctb pool
+  | ODestroyRes slot image res => destroy_with_resource v slot image res
+  | OAllocFor slot image res usage flags req pref ctb pool =>
+    allocate_for_resource v slot image res usage flags req pref ctb pool
+  | OBind slot image res off => bind_memory v slot image res off
+  | ORawCreate image kind dr => raw_create v image kind dr
+  | ORawDestroy image res => raw_destroy v image res
   end.
 
 (* the fault oracle is armed for this call only; m_fired of the result = faults that fired *)
@@ -657,5 +774,55 @@ Definition step (v : vam) (o : op) (f : fault) : vam * result * list call :=
   let '(v1, r) := exec v0 o in
   let m1 := v_m v1 in
   (set_m v1 (clear_calls (set_fault m1 no_fault (m_fired m1))), result_of r, rev (m_calls m1)).
+
+(* ---------------------------------------------------------------- defragmentation API calls *)
+
+(* the DefragmentationContext is the caller's object: it is passed in and out next to the allocator *)
+Inductive dop :=
+| DBegin (flags : Z) (pool : option Z) (maxBytes maxAllocs : Z)   (* Allocator.BeginDefragmentation *)
+| DPass                                                            (* BeginDefragPass *)
+| DEnd (decisions : list Z)                                        (* EndDefragPass; MoveOperation per move *)
+| DFin.                                                            (* Finish *)
+
+Inductive dres := DRNone | DRMoves (l : list Defrag.move) | DRDone (b : bool) | DRStats (s : Pass.pstats).
+
+Definition dexec (v : vam) (run : option dfrun) (o : dop) : vam * option dfrun * out unit * dres :=
+  match o, run with
+  | DBegin flags pool mb ma, _ =>
+    let '(v1, r) := defrag_begin c v flags pool mb ma in
+    match r with
+    | OK run' => (v1, Some run', OK tt, DRNone)
+    | ER code => (v1, run, ER code, DRNone)
+    | PANIC => (v1, run, PANIC, DRNone)
+    | STUCK => (v1, run, STUCK, DRNone)
+    end
+  | DPass, Some rn =>
+    let '(v1, rn', r) := defrag_pass c v rn in
+    match r with
+    | OK mvs => (v1, Some rn', OK tt, DRMoves mvs)
+    | ER code => (v1, Some rn', ER code, DRNone)
+    | PANIC => (v1, Some rn', PANIC, DRNone)
+    | STUCK => (v1, Some rn', STUCK, DRNone)
+    end
+  | DEnd ds, Some rn =>
+    let '(v1, rn', r) := defrag_end c v rn ds in
+    match r with
+    | OK b => (v1, Some rn', OK tt, DRDone b)
+    | ER code => (v1, Some rn', ER code, DRDone false)
+    | PANIC => (v1, Some rn', PANIC, DRNone)
+    | STUCK => (v1, Some rn', STUCK, DRNone)
+    end
+  | DFin, Some rn =>
+    let '(v1, st) := defrag_finish v rn in
+    (v1, Some rn, OK tt, DRStats st)
+  | _, None => (v, run, STUCK, DRNone)
+  end.
+
+Definition dstep (v : vam) (run : option dfrun) (o : dop) (f : fault)
+  : vam * option dfrun * result * list call * dres :=
+  let v0 := set_m v (clear_calls (set_fault (v_m v) f 0)) in
+  let '(v1, run1, r, dr) := dexec v0 run o in
+  let m1 := v_m v1 in
+  (set_m v1 (clear_calls (set_fault m1 no_fault (m_fired m1))), run1, result_of r, rev (m_calls m1), dr).
 
 End WithCfg.
